@@ -42,7 +42,9 @@ def effect(verb, args, st):
         return zero, ("measure", args[0] * 1000), {}
     if verb == "SETFH" and n >= 4:
         # hsn, maio, then (rx, tx) pairs in kHz; at least one complete pair is guaranteed by n >= 4
-        return zero, None, {"__fh": ("set", args[0], args[1], [(args[2 + 2 * k] * 1000, args[3 + 2 * k] * 1000) for k in range((n - 2) // 2)])}
+        # the hopping sequence number is a 6-bit value (3GPP TS 45.002 6.2.3): anything else is refused and leaves the hopping state alone
+        ok = z3.And(args[0] >= 0, args[0] <= 63)
+        return z3.If(ok, 0, -1), None, {"__fh": ("set", args[0], args[1], [(args[2 + 2 * k] * 1000, args[3 + 2 * k] * 1000) for k in range((n - 2) // 2)], ok)}
     if verb == "SETFORMAT" and n == 1:
         req = args[0]
         bad = z3.Or(req < 0, req > VER_MAX)
@@ -82,8 +84,13 @@ def effect(verb, args, st):
         bad = z3.Or(args[0] < 0, args[1] <= 0)
         return z3.If(bad, -1, 0), None, {"drop_amount": z3.If(bad, st["drop_amount"], args[0]), "drop_period": z3.If(bad, st["drop_period"], args[1])}
     if verb == "FAKE_TRXC_DELAY" and n == 1:
-        return zero, None, {"rsp_delay_ms": args[0]}
+        # a delay the process cannot sleep (negative, or beyond TRXC_DELAY_MAX_MS) is refused and the old setting kept
+        bad = z3.Or(args[0] < 0, args[0] > TRXC_DELAY_MAX_MS)
+        return z3.If(bad, -1, 0), None, {"rsp_delay_ms": z3.If(bad, st["rsp_delay_ms"], args[0])}
     return zero, None, {}
+
+
+TRXC_DELAY_MAX_MS = 60 * 1000
 
 
 VERBS = ["POWERON", "POWEROFF", "RXTUNE", "TXTUNE", "MEASURE", "SETFH", "SETFORMAT", "SETPOWER", "NOMTXPOWER", "RFMUTE",
